@@ -23,6 +23,9 @@
      6  a package-level identifier is declared twice in one directory  (property oracle)
      7  a struct type has two members (fields / methods) of one name   (property oracle)
      8  a method has two receiver / parameter / result names alike     (property oracle)
+   RejectCase: a program the real front end accepts and the Go backend rejects with the
+   MustReserve panic (recovered by Scope.init, non-zero exit): the model must raise the reserve
+   failure for one of its files (code 1 otherwise).
    Identifiers that templates compose without asking a name table are NOT MODELLED; they are
    excluded from the set comparison by the rule [not_modelled] below (and only by it) but take
    part in the oracles 6, 7, 8. *)
@@ -58,7 +61,8 @@ Inductive case :=
 | ScopeCase (ft : features) (tf : tflags)
             (identify_answers lower_first_answers : list (bytes * bytes))
             (files : list file)
-            (idents : list bytes) (types : list gotype).
+            (idents : list bytes) (types : list gotype)
+| RejectCase (ft : features) (identify_answers lower_first_answers : list (bytes * bytes)) (files : list file).
 
 Definition obs_eqb (v : outv) (o : obs) : bool :=
   match v, o with
@@ -252,6 +256,9 @@ Definition scope_report (c : case) : list (N * list bytes) :=
   | _ => []
   end.
 
+Definition rejects_reserve (ft : features) (idt lft : list (bytes * bytes)) (f : file) : bool :=
+  match scope_run (answer idt) (answer lft) ft f with SErr EReserve => true | _ => false end.
+
 Definition check (c : case) : list N :=
   match c with
   | NsCase k ops outs finals =>
@@ -272,6 +279,7 @@ Definition check (c : case) : list N :=
       (if has_dup idents then [6%N] else []) ++
       (if dup_members types then [7%N] else []) ++
       (if dup_params types then [8%N] else [])
+  | RejectCase ft idt lft files => if existsb (rejects_reserve ft idt lft) files then [] else [1%N]
   end.
 
 Fixpoint mismatches_from (i : N) (cs : list case) : list (N * N) :=
